@@ -74,6 +74,10 @@ class C14(Check):
                 for fixed in ([], [0], [1]):
                     yield {"algo": algo, "shape": list(shape), "family": group["family"], "rank": rank, "weights": "none", "fixed": fixed,
                            "container": "tuple", "K": K, "seed": seed, "tenalg": "einsum"}
+                if algo == "tucker":
+                    for fixed in ([], [0], [0, 1], [1, 0]):
+                        yield {"algo": algo, "shape": list(shape), "family": group["family"], "rank": rank, "weights": "none", "fixed": fixed,
+                               "container": "tuple", "K": K, "seed": seed, "api": "class"}
             return
         if algo == "parafac":
             # long runs with line search (it starts at sweep 7): fixed factors must stay bit-identical through accepted jumps too
@@ -90,6 +94,11 @@ class C14(Check):
                     for (w, fixed) in (("none", []), ("positive", []), ("none", [0]), ("positive", [0, 1])):
                         yield {"algo": algo, "shape": list(shape), "family": group["family"], "rank": rank, "weights": w, "fixed": fixed,
                                "container": "tuple", "K": K, "seed": seed, "cons": cons}
+        if algo in ("parafac", "non_negative_parafac", "non_negative_parafac_hals"):
+            for rank in ranks:
+                for (w, fixed) in (("positive", []), ("partly-one", [0]), ("none", [0, 1]), ("none", [1, 0])):
+                    yield {"algo": algo, "shape": list(shape), "family": group["family"], "rank": rank, "weights": w, "fixed": fixed,
+                           "container": "tuple", "K": K, "seed": seed, "api": "class"}
         for rank in ranks:
             for (w, fixed) in (("positive", []), ("positive", [0]), ("none", [1])):
                 if algo == "parafac2" and fixed:
@@ -195,6 +204,16 @@ class C14(Check):
             init = make_init(variant)
             np.random.seed(20260927)
             try:
+                if case.get("api") == "class":  # the estimator classes are entry points of the same algorithms
+                    if algo == "parafac":
+                        return ("cp", D.CP(rank, n_iter_max=k, init=init, tol=0, fixed_modes=list(fixed) if fixed else None).fit_transform(tl.tensor(X))), init
+                    if algo == "non_negative_parafac":
+                        return ("cp", D.CP_NN(rank, n_iter_max=k, init=init, tol=itm.TINY, fixed_modes=list(fixed) if fixed else None).fit_transform(tl.tensor(X))), init
+                    if algo == "non_negative_parafac_hals":
+                        return ("cp", D.CP_NN_HALS(rank, n_iter_max=k, init=init, tol=itm.TINY, fixed_modes=list(fixed), exact=False).fit_transform(tl.tensor(X))), init
+                    if algo == "tucker":
+                        return ("tucker", D.Tucker(rank, n_iter_max=k, init=init, tol=0, fixed_factors=list(fixed) if fixed else None).fit_transform(tl.tensor(X))), init
+                    raise ValueError(algo)
                 if algo == "parafac":
                     r = D.parafac(tl.tensor(X), rank, n_iter_max=k, init=init, tol=0, fixed_modes=list(fixed) if fixed else None,
                                   return_errors=True, **case.get("opts", {}))
